@@ -45,7 +45,9 @@ def main():
     m = re.search(r"(pkg/\S+_test\.go|\S+_test\.go)", first)
     place = m.group(1) if m else "pkg/yang/mutdemo_test.go"
     if "/" not in place:
-        place = "pkg/yang/" + place
+        # a bare file name: the repository root for a demo of package main (the command), else pkg/yang
+        is_main = any(l.strip() == "package main" for l in open(demo).read().splitlines()[:12])
+        place = place if is_main else "pkg/yang/" + place
     wt = "/tmp/seedwt-" + sid
     sh("git -C /repo worktree remove --force %s" % wt)
     sh("git -C /repo worktree add --detach %s HEAD" % wt)
@@ -64,7 +66,7 @@ def main():
         suite_green = rc1 == 0 and "FAIL" not in out1
         result["ran"].append(dict(cmd="go build ./... && go test -count=1 ./...  (with change)", rc=rc1, out=out1[-400:]))
         shutil.copy(demo, os.path.join(wt, place))
-        pkg = "./" + os.path.dirname(place)
+        pkg = "./" + os.path.dirname(place) if os.path.dirname(place) else "."
         rc2, out2 = sh("go test -count=1 -run 'Mut|Demo|Seed' %s 2>&1 | tail -15" % pkg, cwd=wt)
         demo_red = "FAIL" in out2 or "panic" in out2
         result["ran"].append(dict(cmd="demo with change", rc=rc2, out=out2[-600:]))
